@@ -39,11 +39,11 @@ def fresh(mode: str, w: dict[str, str]) -> Any:
     return _fresh_cache[key]
 
 
-def run_history(mode: str, hist: list[dict[str, str]], recheck: bool = False) -> tuple[int | None, str, list[Any]]:
+def run_history(mode: str, hist: list[dict[str, str]], recheck: bool = False, cache_world: dict[str, str] | None = None) -> tuple[int | None, str, list[Any]]:
     """Returns (index of the first disagreeing step or None, description, responses)."""
     follow, files = MODES[mode]
     root = scratch("c03-")
-    r = D.run_daemon_history(root, hist, follow, files, recheck=recheck)
+    r = D.run_daemon_history(root, hist, follow, files, recheck=recheck, cache_world=cache_world)
     shutil.rmtree(root, ignore_errors=True)
     resps = r.get("responses", [])
     for i, w in enumerate(hist):
@@ -58,15 +58,18 @@ def run_history(mode: str, hist: list[dict[str, str]], recheck: bool = False) ->
     return None, "", resps
 
 
-def minimise(mode: str, hist: list[dict[str, str]], recheck: bool) -> list[dict[str, str]]:
+def minimise(mode: str, hist: list[dict[str, str]], recheck: bool, cache_world: dict[str, str] | None = None) -> list[dict[str, str]]:
     """1-minimal failing history: drop steps; revert single-module changes of a step to the previous step's
     content; replace a module's content in the first step by the default content -- while it still fails."""
     default = {"a": "use", "b": "reexport", "c": "c[0,0]"}
 
     def fails(h: list[dict[str, str]]) -> bool:
+        if cache_world is not None:
+            # h[0] is the world the fine-grained cache was built from
+            return len(h) > 1 and run_history(mode, h[1:], recheck, cache_world=h[0])[0] is not None
         return len(h) > 0 and run_history(mode, h, recheck)[0] is not None
 
-    cur = [dict(w) for w in hist]
+    cur = [dict(w) for w in (([cache_world] if cache_world is not None else []) + hist)]
     changed = True
     while changed:
         changed = False
@@ -101,11 +104,15 @@ def worker(job: dict[str, Any]) -> dict[str, Any]:
     W.preload()
     import mypy.dmypy_server  # noqa: F401
     mode, hist, recheck = job["mode"], job["hist"], job.get("recheck", False)
-    idx, what, resps = run_history(mode, hist, recheck)
+    cw = job.get("cache")
+    idx, what, resps = run_history(mode, hist, recheck, cache_world=cw)
     out: dict[str, Any] = {"job": job, "fail": idx is not None, "what": what, "steps": len(hist)}
     if idx is not None:
-        mini = minimise(mode, hist[: idx + 1], recheck)
-        idx2, what2, _ = run_history(mode, mini, recheck)
+        mini = minimise(mode, hist[: idx + 1], recheck, cache_world=cw)
+        if cw is not None:
+            idx2, what2, _ = run_history(mode, mini[1:], recheck, cache_world=mini[0])
+        else:
+            idx2, what2, _ = run_history(mode, mini, recheck)
         out["minimal"] = mini
         out["what"] = what2 or what
     else:
@@ -261,6 +268,35 @@ def main(argv: list[str]) -> int:
         # when the set of files that are part of the build does not change along the history
         stable = all(w["b"] != "noimport" and w["c"] != "c-" for w in hh)
         jobs.append({"mode": mode, "hist": hh, "recheck": bool(i % 3 == 0) and stable})
+    # catalogue D2 (class attributes, base classes, signatures, star imports, subclassing, decorators): every 2-step
+    # history in which ONE interface feature of c changes (quick), any one module changes (thorough); both modes
+    ws2 = D.d2_worlds()
+    for w in ws2:
+        alts = []
+        for m in ("a", "b", "c"):
+            for v2 in sorted(D.D2[m]):
+                if v2 == w[m]:
+                    continue
+                if m == "c" and tier == "quick" and sum(1 for x, y in zip(v2, w[m]) if x != y) != 1:
+                    continue
+                if m != "c" and tier == "quick":
+                    continue
+                alts.append(dict(w, **{m: v2}))
+        for w2 in alts:
+            for mode in MODES:
+                jobs.append({"mode": mode, "hist": [w, w2], "cat": "D2"})
+    # the daemon started from a fine-grained cache written by a batch run on an earlier state of the files (fixed set)
+    # The cache is built from an ERROR-FREE state (what the feature is meant for: a cache produced from a clean tree).
+    # Starting from a cache of a state that has errors loses the errors of every unchanged module (the fine-grained cache
+    # stores no diagnostics and only changed modules are re-checked): that is one genuine, recorded finding, kept visible by
+    # the single representative history below instead of hundreds of (cache state, state) pairs.
+    genc = random.Random(20260929)
+    W.preload()
+    clean = {mode: [w for w in ws if fresh(mode, w)["status"] == 0] for mode in MODES}
+    for i in range(120 if tier == "quick" else 2500):
+        mode = genc.choice(sorted(MODES))
+        jobs.append({"mode": mode, "cache": genc.choice(clean[mode]), "hist": [genc.choice(ws) for _ in range(genc.choice([1, 2]))]})
+    jobs.append({"mode": "normal", "cache": {"a": "use", "b": "reexport", "c": "c[1,0]"}, "hist": [{"a": "use", "b": "reexport", "c": "c[1,0]"}]})
     rnd.shuffle(jobs)
     results = []
     mresults = []
@@ -272,11 +308,14 @@ def main(argv: list[str]) -> int:
     fails = [r for r in results + mresults if r["fail"]]
     seen: dict[str, Any] = {}
     for r in fails:
-        key = "hist:" + json.dumps({"mode": r["job"]["mode"], "recheck": r["job"].get("recheck", False), "h": r["minimal"]}, sort_keys=True)
+        kd = {"mode": r["job"]["mode"], "recheck": r["job"].get("recheck", False), "h": r["minimal"]}
+        if r["job"].get("cache") is not None:
+            kd["fgcache"] = True       # h[0] is the state the fine-grained cache was built from
+        key = "hist:" + json.dumps(kd, sort_keys=True)
         if key in seen:
             continue
         seen[key] = r
-        v.violation(key, {"mode": r["job"]["mode"], "history": r["job"]["hist"], "minimal": r["minimal"], "recheck": r["job"].get("recheck", False)}, r["what"])
+        v.violation(key, {"mode": r["job"]["mode"], "history": r["job"]["hist"], "minimal": r["minimal"], "recheck": r["job"].get("recheck", False), "fgcache_world": r["job"].get("cache")}, r["what"])
     drift = [d for r in mresults if not r["fail"] for d in r["drift"]]
     if not results or not mresults or nwatch == 0:
         raise MachineryError("conformance step did not run")
@@ -291,7 +330,8 @@ def main(argv: list[str]) -> int:
                 "compared with a fresh check (property) and with the model's response (binding); (ii) TLC simulation behaviours of FsWatcher.tla on "
                 "the real FileSystemWatcher; (iii) edit histories over the 48-world catalogue D, a request after every step, import following on "
                 "and off: quick = every 2-step history whose second world differs in one module + a fixed set of 200 3-4 step histories (every "
-                "third with recheck); thorough = all 2-step histories + 6000. non-trivial = history with >1 distinct world and diagnostics",
+                "third with recheck); thorough = all 2-step histories + 6000; (iv) the daemon started from a fine-grained cache built by a batch run on an earlier "
+                "state (fixed set of 120 / 2500 histories). non-trivial = history with >1 distinct world and diagnostics",
         "samples": [results[0]["job"], mresults[0]["job"]], "tlc": cov, "exhaustive": tier == "thorough",
     }
     return v.finish("model_checking", coverage, ["A-clock", "in-process Server.check / cmd_recheck (no socket), fresh forked process per history, test fixtures",
